@@ -4,6 +4,12 @@ manifest is always valid and consistent with the checks that exist)."""
 import json, subprocess
 
 CLAIMED = {
+ "C01": ("exploration", "seeded agendas (driver/model requests of every kind, ns-to-hour scales, equal deadlines, cancels; thorough adds a concurrent scheduler thread) stepped with step/step_until/process_*; the history is replayed against a reference agenda model: landing times, firing times, exactly-once firing, monotone time (API and time-write trace), pending deadlines strictly in the future at every quiescent point.", "trusts the reference agenda (reconstructed from logged requests, not from the implementation's queue) and the time-write trace point; SC executions only", "deterministic simulation of simulated time (agenda histories) + reference agenda model", "DESIGN.md §5 C01"),
+ "C07": ("exploration", "same-deadline bursts from the global scheduler and from model contexts (one-shot, keyed, periodic, EventSource actions, capacity-1 targets) on ST and MT; processing order per (origin, target, time) must follow scheduling order (periodic occurrences ordered by the firing of the previous occurrence).", "SC executions only; requests whose call windows overlap (concurrent threads) are not ordered", "deterministic simulation + per-origin sequence oracle", "DESIGN.md §5 C07"),
+ "C08": ("exploration", "valid and invalid requests (past/now deadlines, zero periods, Scheduler::schedule with EventSource actions) from driver, models and 0-2 scheduler threads racing step()/step_until(); accept/reject is judged against every time value held during the call window (time-write trace), accepted requests against the reference agenda; worker processes run under a watchdog and an address-space limit so that a call that never returns is reported with its case.", "SC executions only; trusts the time-write trace point", "deterministic simulation with concurrent scheduler threads (fault X) and invalid requests (fault I) + validation oracle + process watchdog", "DESIGN.md §5 C08"),
+ "C09": ("exploration", "keyed one-shot/periodic events cancelled through key, clone and auto-key drop by the driver between steps, by the same model at the same time stamp, after firing, twice; a firing after a completed cancellation (before the step, or earlier in the same model) is a violation, every non-cancelled action must still fire.", "SC executions only; cancellations concurrent with the step impose nothing, as the statement says", "deterministic simulation + cancellation oracle over the history", "DESIGN.md §5 C09"),
+ "C10": ("exploration", "1-4 periodic series (1 ns..hours, commensurable periods, optional cancellation at a fixed simulated time) executed under 4-6 different partitions of the horizon into step/step_until calls and on ST/MT; each series must fire exactly at t0+k*p and the per-series log must not depend on the partition (metamorphic).", "trusts the arithmetic of the reference (u64 ns); SC executions only", "deterministic simulation of simulated time + arithmetic-progression and partition-metamorphic oracles", "DESIGN.md §5 C10"),
+ "C18": ("fault_enumeration", "agendas stepped under a scripted recording clock: every synchronize call index gets a scripted answer (Synchronized / OutOfSync(lag)), tolerance unset / 0 / between lags / huge; the clock protocol (exactly one synchronize per new time, ordering w.r.t. handlers, OutOfSync reported before model code) is checked on the history.", "the fault space (answer per call index x tolerance class) is sampled from the seed, not enumerated exhaustively; SC executions only", "deterministic simulation with clock-lag fault injection (fault K) + clock-protocol oracle", "DESIGN.md §5 C18"),
  # id: (level category, level text, level note, technique, design_ref)
  "C02": ("exploration", "seeded search over MT schedules (uniform/sticky random, PCT depth 1-6, round robin) of generated acyclic benches with capacity 1-2 mailboxes; causal order judged offline with vector clocks over completed port operations. Evidence, not proof: interleavings are sampled at atomic-operation granularity under sequential consistency.", "trusts shuttle's execution model (SC atomics), the harness log (std primitives, no scheduling points) and the offline vector-clock reconstruction", "deterministic simulation: shuttle-driven whole-library runs + offline vector-clock oracle", "DESIGN.md §5 C02"),
  "C03": ("exploration", "seeded search over benches (plain/map/filter_map edges to models and sinks, capacities 1-16) and schedules on ST and MT; every logged send is compared with the connection table (expected deliveries) as a multiset.", "trusts the connection-table reference (a few lines) and the harness log; SC executions only", "deterministic simulation: shuttle-driven whole-library runs + conservation oracle against the connection table", "DESIGN.md §5 C03"),
